@@ -90,6 +90,42 @@ def optTensor : P (Option (Tensor F)) := do
   | "none" :: r => set r; pure none
   | _ => pure (some (← tensor))
 
+def act : P Act := do
+  let t ← tok
+  match t with
+  | "relu" => pure .relu | "leaky" => pure .leaky | "sigmoid" => pure .sigmoid
+  | "softmax" => pure .softmax | "tanh" => pure .tanh | "linear" => pure .linear
+  | _ => throw s!"expected activation, got {t}"
+
+def obj : P Obj := do
+  let t ← tok
+  match t with
+  | "ae" => pure .ae | "mae" => pure .mae | "mse" => pure .mse | "rmse" => pure .rmse
+  | "ce" => pure .ce | "bce" => pure .bce | "kl" => pure .kl
+  | _ => throw s!"expected objective, got {t}"
+
+def clampOpt : P (Option (F × F)) := do
+  match (← get) with
+  | "none" :: r => set r; pure none
+  | _ => do let lo ← flt; let hi ← flt; pure (some (lo, hi))
+
+def optimizer : P (OptKind F) := do
+  let t ← tok
+  match t with
+  | "sgd" => do let lr ← flt; let d ← optF; pure (.sgd lr d)
+  | "sgdm" => do let lr ← flt; let m ← flt; let da ← flt; let d ← optF; pure (.sgdm lr m da d)
+  | "adam" => do let lr ← flt; let b1 ← flt; let b2 ← flt; let e ← flt; let d ← optF; pure (.adam lr b1 b2 e d)
+  | "adamw" => do let lr ← flt; let b1 ← flt; let b2 ← flt; let e ← flt; let d ← flt; pure (.adamw lr b1 b2 e d)
+  | "rmsprop" => do
+    let lr ← flt; let a ← flt; let e ← flt; let d ← optF; let m ← optF; let c ← boolean
+    pure (.rmsprop lr a e d m c)
+  | _ => throw s!"expected optimizer, got {t}"
+
+/-- the parameter table `[layer][filter][bias]` of an `opt.run` request -/
+def table : P (List (List (List (Tensor F)))) := do
+  let l ← nat
+  many (do let f ← nat; many (do let b ← nat; many tensor b) f) l
+
 /-! ### rendering -/
 
 def canonBits (x : F) : Nat :=
@@ -182,6 +218,39 @@ def handle (op : String) : P String := do
   | "t.argmax" => do let a ← tensor; pure (respond a.argmax toString)
   | "t.zeros" => do let s ← shape; pure (respond (Tensor.zeros (α := F) s) rTensor)
   | "t.ones" => do let s ← shape; pure (respond (Tensor.ones (α := F) s) rTensor)
+  /- activation.rs / objective.rs / optimizer.rs -/
+  | "act.fwd" => do let a ← act; let t ← tensor; pure (respond (a.forward t) rTensor)
+  | "act.bwd" => do let a ← act; let t ← tensor; pure (respond (a.backward t) rTensor)
+  | "obj.loss" => do
+    let o ← obj; let c ← clampOpt; let p ← tensor; let t ← tensor
+    pure (respond (o.loss c p t) (fun r => s!"{rF r.1} {rTensor r.2}"))
+  | "opt.run" => do
+    let o ← optimizer
+    let params ← table
+    let zeros := params.map (·.map (·.map (Tensor.mapData (fun _ => (0 : F)))))
+    let mut o := Optimizer.validated o zeros
+    let mut params := params
+    let n ← nat
+    let mut out : List String := []
+    let mut failed : Option Err := none
+    for _ in [0:n] do
+      let layer ← nat; let filter ← nat; let bias ← boolean; let stepnr ← nat; let g ← tensor
+      if failed.isNone then
+        let b := if bias then 1 else 0
+        match Optimizer.getSlot params layer filter b with
+        | .error e => failed := some e
+        | .ok v =>
+          match o.update layer filter bias stepnr v g with
+          | .error e => failed := some e
+          | .ok (o', v', g') =>
+            o := o'
+            params := Optimizer.setSlot params layer filter b v'
+            out := out ++ [rTensor v', rTensor g']
+    match failed with
+    | some e => pure ("err " ++ e.toString)
+    | none =>
+      let all := params.flatMap (·.flatMap (·.map rTensor))
+      pure ("ok " ++ " ".intercalate (out ++ all))
   /- random.rs -/
   | "rnd.tof32" => do let n ← nat; pure s!"ok {Random.toF32 n}"
   | "rnd.generate" => do
